@@ -123,6 +123,11 @@ def check_impl(ctx, cases):
                         continue
                     # ROC and PPO are well-conditioned in their inputs; the window ratios get three more digits
                     ref = max(scale, 100.0 if ind != "ER" else 1.0) * (1.0 if ind in ("ROC", "PPO") else 1e3)
+            elif ind in ("SMA", "WMA", "EMA"):
+                # running sums / recursions keep the rounding residue of everything they have seen: after a 10^6 x spike the
+                # output is well-conditioned only relative to the largest magnitude seen so far, not to its own current value
+                seen = max(abs(v) for o in base_bars[:step + 1] for v in (o[2:3] if o[0] == "n" else o[3:6]))
+                ref = max(scale, seen * abs(f))
             else:
                 ref = scale
             def differs(got, want, level, r_, sharp=False):
